@@ -136,11 +136,34 @@ def unit_torch_stft(prop):
     return unit
 
 
+def unit_tri(prop, which):
+    def unit(tier, known):
+        import z3
+        from contracts import filters_tri as C
+        from pyvc.symex import Obligation
+        if which == "init":
+            u = run_contract(prop, ("filters", f"{C.CLS}.__init__"), C.contract_init(), [("high_none", C.setup_init(True)), ("high_given", C.setup_init(False))],
+                             name="tri_init", to_case=C.to_case, replay_module="rtc.c05_tri")
+            # lemma: the property's rejection sentence is implied by the proved `raises` condition
+            low, high, rate = z3.Reals("low_hz high_hz sampling_rate")
+            stated = z3.Or(low < 0, z3.And(high > 0, z3.Or(high <= low, high > rate / 2 + 1)))
+            raises = z3.Not(z3.And(0 <= low, low < high, high <= rate / 2 + 1))
+            u.obligations.append(Obligation(f"{prop}.__init__.rejection_sentence_implied", [rate > 0], z3.Implies(stated, raises), "lemma", None))
+            return u
+        setup = {"truncated": C.setup_method}[which]
+        contract = {"truncated": C.contract_truncated}[which]()
+        return run_contract(prop, ("filters", f"{C.CLS}.get_{which}_response"), contract, [("", setup)], name="tri_" + which, to_case=C.to_case, replay_module="rtc.c05_tri")
+    unit.__name__ = "tri_" + which
+    return unit
+
+
 UNITS = {
+    "C05": [unit_tri("C05", "init"), unit_tri("C05", "truncated")],
+    "C06": [unit_tri("C06", "truncated")],
     "C14": [unit_torch_stft("C14")],
     "C09": [unit_torch_stft("C09")],
     "C19": [_scales("C19")],
-    "C02": [unit_stft_frame("C02"), unit_stft("C02", "full")],
+    "C02": [unit_stft_frame("C02"), unit_stft("C02", "full"), unit_tri("C02", "init"), unit_tri("C02", "truncated")],
     "C01": [unit_stft("C01", "finalize"), unit_stft("C01", "chunk"), unit_fbf("C01")],
     "C04": [unit_stft("C04", "finalize"), unit_stft("C04", "chunk"), unit_stft("C04", "full"), unit_fbf("C04"), unit_stft_fresh("C04")],
 }
